@@ -21,7 +21,7 @@ about n bytes), "reuse" (re-register the same ServiceInfo object with a changed 
 [t, "update", svc, {"other_ttl", "host_ttl", "rev": r}], [t, "browse", host, type | [types...], {"cases": [...]}], [t, "close", host]],
 "net": {"seed", "mode", "dups", "drop": None | delivery index | {"dgram": d, "mode": "all" | "remote"}}, optional "stack" ("4" | "6" |
 "46": the sockets of EVERY host), "listen" (dedicated listen socket), "horizon" / "every" (long observation), "family"}.
-Times are ms since simulation start.  Hosts with two listeners (`46`, `listen`) are judged by stage O only.  A side report
+Times are ms since simulation start.  On hosts with two listeners (`46`, `listen`) the contracts are judged on the deliveries the listeners parsed.  A side report
 (`harness/c07proj.py`) evaluates the projection hypotheses of `C07_convergence_from_models_partial` on block logs of the same runs.
 """
 from __future__ import annotations
